@@ -70,6 +70,11 @@ CHECKS = {
          "The decision logic is model-checked for every small (labels, feature ranks, learned ranks, trained?, encoding, direction, threshold). The real brew() is run on random datasets x estimators that learn / cannot learn / anti-learn x label encodings x best-feature direction x format x override; TLC recomputes from the returned scores and direction how many genuine targets are accepted (C01 formula per collection) and accepts iff that is at least the best feature's count or the returned scores are exactly that feature's values with its direction. The direction part runs every canonical table of ConfGen.tla through assign_confidence(descs=[False]).",
          "Trusted: TLC; feat_total is what the returned fold models report. An explicit calibration RuntimeError is not a silent degradation. Known finding F-07b (assign_confidence ignores desc=False).",
          "DESIGN.md §3 C07"),
+ "C09": ("fault_enumeration",
+         "TLC model checking of Workdir.tla (run sequences over one directory, Fail/Kill at every step) + enumeration of every intercepted I/O call of real earlier runs as a fault point + TLC trace validation (WorkdirTrace.tla) of the observed run in the dirty directory against the same run in a clean directory",
+         "The file-system model is checked for all histories of up to 3 runs with every crash step and both crash kinds. TLC emits the history skeletons; for two-run histories the driver makes EVERY intercepted write/append/unlink call of the real earlier run a fault point (Fail = the call raises, Kill = a forked child exits there), adds completed different runs and sampled three-run histories, and the CLI verify step with stale '<pin>.tsv' files; TLC accepts iff the observed run succeeds with the same result files as in a clean directory, leaves no intermediate file of its own, and the input file ends up as in the clean run.",
+         "Trusted: TLC, the interposition layer (to_csv / to_parquet / ParquetWriter / write_table / os.unlink / Path.unlink), fork for Kill. The CLI is stopped after its verify step by a read_pin stub.",
+         "DESIGN.md §3 C09"),
 }
 PENDING = {}   # id -> reason (not_applicable)
 
